@@ -638,6 +638,32 @@ fn injections(s: &mut Session, rng: &mut Rng, run: u32) {
         b[i].0 = pc_name(&pwb[(p.board + 1 + rng.below(pwb.len() as u64 - 1) as usize) % pwb.len()].0);
         add(s, "renamed-pad-bank", run, &b, Expect::MustReject("pad bank name and payload disagree on the board"));
     }
+    // every single chunk bank of a multi-chunk message renamed on its own (first, middle, last chunk),
+    // in the original order and with the misnamed chunk moved to the front / the back (seed C11-3:
+    // only the first-arrived chunk's bank name was checked)
+    {
+        let pcs: Vec<usize> = (0..base.len()).filter(|&i| is_pc(&base[i].0)).collect();
+        for (n, &i) in pcs.iter().enumerate() {
+            if n >= 3 && n + 2 < pcs.len() {
+                continue;
+            }
+            let mut other = base[i].0.clone();
+            while other == base[i].0 {
+                other = pc_name(&pwb[rng.below(pwb.len() as u64) as usize].0);
+            }
+            let mut b = base.clone();
+            b[i].0 = other;
+            add(s, "renamed-one-chunk-bank", run, &b, Expect::MustReject("one pad chunk sits in a bank named after another board"));
+            let mut front = b.clone();
+            let x = front.remove(i);
+            front.insert(0, x);
+            add(s, "renamed-one-chunk-bank", run, &front, Expect::MustReject("one pad chunk sits in a bank named after another board"));
+            let mut back = b.clone();
+            let x = back.remove(i);
+            back.push(x);
+            add(s, "renamed-one-chunk-bank", run, &back, Expect::MustReject("one pad chunk sits in a bank named after another board"));
+        }
+    }
     {
         let i = base.len() - 1;
         let mut b = base.clone();
